@@ -58,26 +58,132 @@ theorem kGLead_rest (isConst : Bool) (z : Bytes) : ∀ k ∈ kGLead, TyParse.str
   · exact Core3.stripPrefix_diverge _ _ _ this.1
   · exact Core3.stripPrefix_diverge _ _ _ this.2
 
-theorem readEntityLine_global (useHex : Int → Bool) (g : Core2.Global) (hne : g.name ≠ []) (hl : ∀ i ∈ g.lead, i < kGLead.length) :
+theorem readQuoted_quote (s R : Bytes) : readQuoted (Enc.quote s ++ R) = some (s, R) := by
+  obtain ⟨h1, h2⟩ := Core3.quote_split' s R
+  have e : Enc.quote s ++ R = 34 :: (Enc.escapeString s ++ 34 :: R) := by simp [Enc.quote]
+  rw [e]
+  simp only [readQuoted, h1, h2, Props.C11.unescape_escapeString]
+
+theorem readGItems_sect (f : Nat) (x R : Bytes) : readGItems (f + 1) (sCommaSection ++ Enc.quote x ++ R) = (readGItems f R).map (GItem.sect x :: ·) := by
+  have e : sCommaSection ++ Enc.quote x ++ R = 44 :: 32 :: 115 :: ([101, 99, 116, 105, 111, 110, 32] ++ (Enc.quote x ++ R)) := by simp [sCommaSection]
+  have hs : TyParse.stripPrefix sCommaSection (sCommaSection ++ (Enc.quote x ++ R)) = some (Enc.quote x ++ R) := TyParse.stripPrefix_append _ _
+  rw [e]
+  simp only [readGItems]
+  rw [← e, List.append_assoc, hs]
+  simp only [readQuoted_quote]
+
+theorem readGItems_part (f : Nat) (x R : Bytes) : readGItems (f + 1) (sCommaPartition ++ Enc.quote x ++ R) = (readGItems f R).map (GItem.part x :: ·) := by
+  have e : sCommaPartition ++ Enc.quote x ++ R = 44 :: 32 :: 112 :: ([97, 114, 116, 105, 116, 105, 111, 110, 32] ++ (Enc.quote x ++ R)) := by simp [sCommaPartition]
+  have hn : TyParse.stripPrefix sCommaSection (sCommaPartition ++ (Enc.quote x ++ R)) = none := by simp [sCommaSection, sCommaPartition, TyParse.stripPrefix]
+  have hs : TyParse.stripPrefix sCommaPartition (sCommaPartition ++ (Enc.quote x ++ R)) = some (Enc.quote x ++ R) := TyParse.stripPrefix_append _ _
+  rw [e]
+  simp only [readGItems]
+  rw [← e, List.append_assoc, hn, hs]
+  simp only [readQuoted_quote]
+
+theorem readGItems_align (f n : Nat) : readGItems (f + 1 + 1) (sCommaAlign ++ natDec n) = some [GItem.align n] := by
+  have e : sCommaAlign ++ natDec n = 44 :: 32 :: 97 :: ([108, 105, 103, 110, 32] ++ natDec n) := by simp [sCommaAlign]
+  have hn1 : TyParse.stripPrefix sCommaSection (sCommaAlign ++ natDec n) = none := by simp [sCommaSection, sCommaAlign, TyParse.stripPrefix]
+  have hn2 : TyParse.stripPrefix sCommaPartition (sCommaAlign ++ natDec n) = none := by simp [sCommaPartition, sCommaAlign, TyParse.stripPrefix]
+  have hs : TyParse.stripPrefix sCommaAlign (sCommaAlign ++ natDec n) = some (natDec n) := TyParse.stripPrefix_append _ _
+  have hr := TyParse.readNat_natDec n [] (by simp)
+  rw [e]
+  simp only [readGItems]
+  rw [← e, hn1, hn2, hs]
+  simp only [List.append_nil] at hr
+  simp only [hr, readGItems, Option.map_some]
+
+/-- the clauses the printer writes are read back as written -/
+theorem readGItems_print (t : Core2.GTail) (f : Nat) : readGItems (f + 4) (gtailString t) = some (gitemsOf t) := by
+  obtain ⟨sc, pt, al⟩ := t
+  unfold gtailString gitemsOf
+  by_cases hs : sc.isEmpty = true <;> by_cases hp : pt.isEmpty = true <;> by_cases ha : (al == 0) = true <;>
+    simp only [hs, hp, ha, if_true, Bool.false_eq_true, if_false, List.nil_append, List.append_nil]
+  · simp [readGItems]
+  · exact readGItems_align (f + 2) al
+  · have := readGItems_part (f + 3) pt []
+    simp only [List.append_nil] at this
+    rw [this]; simp [readGItems]
+  · have := readGItems_part (f + 3) pt (sCommaAlign ++ natDec al)
+    simp only [List.append_assoc] at this ⊢
+    rw [this, readGItems_align (f + 1) al]; rfl
+  · have := readGItems_sect (f + 3) sc []
+    simp only [List.append_nil] at this
+    rw [this]; simp [readGItems]
+  · have := readGItems_sect (f + 3) sc (sCommaAlign ++ natDec al)
+    simp only [List.append_assoc] at this ⊢
+    rw [this, readGItems_align (f + 1) al]; rfl
+  · have h1 := readGItems_sect (f + 3) sc (sCommaPartition ++ Enc.quote pt)
+    have h2 := readGItems_part (f + 2) pt []
+    simp only [List.append_nil, List.append_assoc] at h1 h2 ⊢
+    rw [h1, h2]; simp [readGItems]
+  · have h1 := readGItems_sect (f + 3) sc (sCommaPartition ++ Enc.quote pt ++ (sCommaAlign ++ natDec al))
+    have h2 := readGItems_part (f + 2) pt (sCommaAlign ++ natDec al)
+    simp only [List.append_assoc] at h1 h2 ⊢
+    rw [h1, h2, readGItems_align f al]; rfl
+
+/-- …and translated back to the fields -/
+theorem foldG_gitemsOf (t : Core2.GTail) (ha : t.align < 2 ^ 64) : (gitemsOf t).foldlM applyG {} = some t := by
+  obtain ⟨sc, pt, al⟩ := t
+  simp only at ha
+  unfold gitemsOf
+  by_cases hs : sc.isEmpty = true <;> by_cases hp : pt.isEmpty = true <;> by_cases h0 : (al == 0) = true <;>
+    simp only [hs, hp, h0, if_true, Bool.false_eq_true, if_false, List.nil_append, List.append_nil, List.foldlM, applyG, ha, List.cons_append, List.singleton_append, Option.bind_eq_bind, Option.bind, pure] <;>
+    simp_all
+
+/-- the clauses behind the initializer, read back -/
+theorem readGTail_print (t : Core2.GTail) (ha : t.align < 2 ^ 64) : readGTail (gtailString t) = some t := by
+  unfold readGTail
+  rw [readGItems_print t (gtailString t).length]
+  simp only [Option.bind]
+  exact foldG_gitemsOf t ha
+
+theorem stopC_gtail (t : Core2.GTail) : Core2.stopC (gtailString t) = true := by
+  unfold gtailString
+  split <;> split <;> split <;> simp [Core2.stopC, sCommaSection, sCommaPartition, sCommaAlign]
+
+/-- the initializer is split from the clauses behind it -/
+theorem splitInit_print (useHex : Int → Bool) (ty : Ty) (init : Core2.Const) (t : Core2.GTail) (hw : Core2.cwf init = true) :
+    splitInit (tyString ty ++ [32] ++ Core2.constIdent useHex ty init ++ gtailString t) = some (tyString ty ++ [32] ++ Core2.constIdent useHex ty init, gtailString t) := by
+  have e : tyString ty ++ [32] ++ Core2.constIdent useHex ty init ++ gtailString t = tyString ty ++ 32 :: (Core2.constIdent useHex ty init ++ gtailString t) := by simp
+  have hp := Core2.elem_step useHex ty init (gtailString t)
+  have hc := Core2.read_const useHex init ((Core2.constIdent useHex ty init ++ gtailString t).length + 1) ty (gtailString t) (stopC_gtail t)
+    (by have := Core2.csize_le_len useHex ty init; simp only [List.length_append]; omega) hw
+  rw [e]
+  unfold splitInit
+  rw [hp]
+  simp only [hc]
+  congr 2
+  have : (tyString ty ++ 32 :: (Core2.constIdent useHex ty init ++ gtailString t)).length - (gtailString t).length = (tyString ty ++ [32] ++ Core2.constIdent useHex ty init).length := by
+    simp only [List.length_append, List.length_cons, List.length_nil]; omega
+  rw [this]
+  have e2 : tyString ty ++ 32 :: (Core2.constIdent useHex ty init ++ gtailString t) = (tyString ty ++ [32] ++ Core2.constIdent useHex ty init) ++ gtailString t := by simp
+  rw [e2, List.take_left']
+  rfl
+
+theorem readEntityLine_global (useHex : Int → Bool) (g : Core2.Global) (hne : g.name ≠ []) (hl : ∀ i ∈ g.lead, i < kGLead.length)
+    (hw : Core2.cwf g.init = true) (ha : g.tail.align < 2 ^ 64) :
     readEntityLine (globalLine useHex g) =
-      some (.global (Enc.globalName g.name) g.isConst (tyString g.ty ++ [32] ++ Core2.constIdent useHex g.ty g.init) g.lead) := by
-  obtain ⟨name, isConst, ty, init, lead⟩ := g
-  simp only at hne hl
+      some (.global (Enc.globalName g.name) g.isConst (tyString g.ty ++ [32] ++ Core2.constIdent useHex g.ty g.init) g.lead g.tail) := by
+  obtain ⟨name, isConst, ty, init, lead, tl⟩ := g
+  simp only at hne hl hw ha
+  have hsp := splitInit_print useHex ty init tl hw
+  have hgt := readGTail_print tl ha
   cases isConst
-  · have h := takeBody_nameBody name (sEqSp ++ (Core3.flagsString kGLead lead ++ (sGlobalKw ++ (tyString ty ++ [32] ++ Core2.constIdent useHex ty init)))) hne (sEqSp_identEnd _)
-    have hf := Core3.readFlags_print kGLead (sGlobalKw ++ (tyString ty ++ [32] ++ Core2.constIdent useHex ty init)) kGLead_diverge
+  · have h := takeBody_nameBody name (sEqSp ++ (Core3.flagsString kGLead lead ++ (sGlobalKw ++ (tyString ty ++ [32] ++ Core2.constIdent useHex ty init ++ gtailString tl)))) hne (sEqSp_identEnd _)
+    have hf := Core3.readFlags_print kGLead (sGlobalKw ++ (tyString ty ++ [32] ++ Core2.constIdent useHex ty init ++ gtailString tl)) kGLead_diverge
       (kGLead_rest false _) lead
-      ((Core3.flagsString kGLead lead ++ (sGlobalKw ++ (tyString ty ++ [32] ++ Core2.constIdent useHex ty init))).length + 1) hl (by
+      ((Core3.flagsString kGLead lead ++ (sGlobalKw ++ (tyString ty ++ [32] ++ Core2.constIdent useHex ty init ++ gtailString tl))).length + 1) hl (by
         have := Core3.flagsString_len kGLead lead; simp only [List.length_append] at this ⊢; omega)
-    simp only [globalLine, Enc.globalName_eq, List.cons_append, List.append_assoc, readEntityLine, stripPrefix, Bool.false_eq_true, if_false] at h hf ⊢
-    simp only [h, TyParse.stripPrefix_append, hf]
-  · have h := takeBody_nameBody name (sEqSp ++ (Core3.flagsString kGLead lead ++ (sConstantKw ++ (tyString ty ++ [32] ++ Core2.constIdent useHex ty init)))) hne (sEqSp_identEnd _)
-    have hf := Core3.readFlags_print kGLead (sConstantKw ++ (tyString ty ++ [32] ++ Core2.constIdent useHex ty init)) kGLead_diverge
+    simp only [globalLine, Enc.globalName_eq, List.cons_append, List.append_assoc, readEntityLine, stripPrefix, Bool.false_eq_true, if_false] at h hf hsp ⊢
+    simp only [h, TyParse.stripPrefix_append, hf, hsp, hgt]
+  · have h := takeBody_nameBody name (sEqSp ++ (Core3.flagsString kGLead lead ++ (sConstantKw ++ (tyString ty ++ [32] ++ Core2.constIdent useHex ty init ++ gtailString tl)))) hne (sEqSp_identEnd _)
+    have hf := Core3.readFlags_print kGLead (sConstantKw ++ (tyString ty ++ [32] ++ Core2.constIdent useHex ty init ++ gtailString tl)) kGLead_diverge
       (kGLead_rest true _) lead
-      ((Core3.flagsString kGLead lead ++ (sConstantKw ++ (tyString ty ++ [32] ++ Core2.constIdent useHex ty init))).length + 1) hl (by
+      ((Core3.flagsString kGLead lead ++ (sConstantKw ++ (tyString ty ++ [32] ++ Core2.constIdent useHex ty init ++ gtailString tl))).length + 1) hl (by
         have := Core3.flagsString_len kGLead lead; simp only [List.length_append] at this ⊢; omega)
-    simp only [globalLine, Enc.globalName_eq, List.cons_append, List.append_assoc, readEntityLine, stripPrefix, if_true] at h hf ⊢
-    simp only [h, TyParse.stripPrefix_append, hf, stripPrefix_global_constant]
+    simp only [globalLine, Enc.globalName_eq, List.cons_append, List.append_assoc, readEntityLine, stripPrefix, if_true] at h hf hsp ⊢
+    simp only [h, TyParse.stripPrefix_append, hf, stripPrefix_global_constant, hsp, hgt]
 
 /-! ### composable reading -/
 
@@ -334,7 +440,7 @@ theorem good_groups : ∀ (gs : List (List Bytes × Top)), (∀ p ∈ gs, Good p
 
 def typedefTok (d : Core2.TypeDef) : Core2.Line := .typedef (Enc.typeName d.name) (Core2.bodyString d.body)
 def globalTok (useHex : Int → Bool) (g : Core2.Global) : Core2.Line :=
-  .global (Enc.globalName g.name) g.isConst (tyString g.ty ++ [32] ++ Core2.constIdent useHex g.ty g.init) g.lead
+  .global (Enc.globalName g.name) g.isConst (tyString g.ty ++ [32] ++ Core2.constIdent useHex g.ty g.init) g.lead g.tail
 
 theorem good_typedefs : ∀ (ds : List Core2.TypeDef), (∀ d ∈ ds, d.name ≠ []) → Good (ds.map typedefLine) ⟨ds.map typedefTok, [], []⟩
   | [], _ => good_nil
@@ -347,12 +453,13 @@ theorem good_typedefs : ∀ (ds : List Core2.TypeDef), (∀ d ∈ ds, d.name ≠
     simpa [Top.app] using this
 
 theorem good_globals (useHex : Int → Bool) : ∀ (gs : List Core2.Global), (∀ g ∈ gs, g.name ≠ []) → (∀ g ∈ gs, ∀ i ∈ g.lead, i < kGLead.length) →
+    (∀ g ∈ gs, Core2.cwf g.init = true ∧ g.tail.align < 2 ^ 64) →
     Good (gs.map (globalLine useHex)) ⟨gs.map (globalTok useHex), [], []⟩
-  | [], _, _ => good_nil
-  | g :: gs, h, hl => by
-    have ih := good_globals useHex gs (fun x hx => h x (by simp [hx])) (fun x hx => hl x (by simp [hx]))
+  | [], _, _, _ => good_nil
+  | g :: gs, h, hl, hw => by
+    have ih := good_globals useHex gs (fun x hx => h x (by simp [hx])) (fun x hx => hl x (by simp [hx])) (fun x hx => hw x (by simp [hx]))
     have h1 : Good [globalLine useHex g] ⟨[globalTok useHex g], [], []⟩ :=
-      good_entity _ _ 64 _ (by rw [globalLine, Enc.globalName_eq]; rfl) (Or.inr rfl) (readEntityLine_global useHex g (h g (by simp)) (hl g (by simp)))
+      good_entity _ _ 64 _ (by rw [globalLine, Enc.globalName_eq]; rfl) (Or.inr rfl) (readEntityLine_global useHex g (h g (by simp)) (hl g (by simp)) (hw g (by simp)).1 (hw g (by simp)).2)
     have := good_append _ _ _ _ h1 ih
     simpa [Top.app] using this
 
@@ -453,7 +560,7 @@ theorem printTok_names (useHex : Int → Bool) (m : Core2.Mod) (h : ∀ d ∈ m.
   unfold Core2.printTok
   rw [List.filterMap_append]
   have h2 : (m.globals.map (fun g => Core2.Line.global (Enc.globalName g.name) g.isConst
-      (tyString g.ty ++ [32] ++ Core2.constIdent useHex g.ty g.init) g.lead)).filterMap lineName = [] := by
+      (tyString g.ty ++ [32] ++ Core2.constIdent useHex g.ty g.init) g.lead g.tail)).filterMap lineName = [] := by
     apply List.filterMap_eq_nil_iff.mpr
     intro l hl; simp only [List.mem_map] at hl; obtain ⟨g, _, rfl⟩ := hl; rfl
   rw [h2, List.append_nil, typedef_names m.typedefs h]
@@ -463,8 +570,12 @@ theorem printTok_names (useHex : Int → Bool) (m : Core2.Mod) (h : ∀ d ∈ m.
 theorem parse_print (useHex : Int → Bool) (m : Module)
     (h2 : Core2.WF ⟨m.typedefs, m.globals⟩) (hs : Core2.sortDefs m.typedefs = m.typedefs)
     (h3 : ∀ f ∈ m.funcs, Core3.wfIn (genvOf m.globals m.funcs) f = true) (h3m : ∀ f ∈ m.funcs, Core3.mdWF useHex f = true)
-    (hm : Meta.wf m.md = true) (hx : crossOK m = true) (hgl : gleadsOK m.globals = true) :
+    (hm : Meta.wf m.md = true) (hx : crossOK m = true) (hgl : gleadsOK m.globals = true) (hgt : gtailsOK m.globals = true) :
     parse (printModule useHex m) = some m := by
+  have hgt' : ∀ g ∈ m.globals, Core2.cwf g.init = true ∧ g.tail.align < 2 ^ 64 := by
+    intro g hg
+    have := List.all_eq_true.mp hgt g hg
+    exact ⟨(h2.typed g hg).2, by simpa using this⟩
   have hgl' : ∀ g ∈ m.globals, ∀ i ∈ g.lead, i < kGLead.length := by
     intro g hg
     have := List.all_eq_true.mp hgl g hg
@@ -489,7 +600,7 @@ theorem parse_print (useHex : Int → Bool) (m : Module)
     · exact ⟨good_typedefs _ (fun d hd => (h2.tnames d hd).1), fun e => by
         have : m.typedefs = [] := by simpa using e
         simp [this, Top.empty]⟩
-    · exact ⟨good_globals useHex _ (fun g hg => h2.gnames g hg) hgl', fun e => by
+    · exact ⟨good_globals useHex _ (fun g hg => h2.gnames g hg) hgl' hgt', fun e => by
         have : m.globals = [] := by simpa using e
         simp [this, Top.empty]⟩
     · exact ⟨good_funcs useHex _ (fun f hf => ⟨hsyn f hf, h3m f hf⟩), fun e => by
@@ -509,7 +620,7 @@ theorem parse_print (useHex : Int → Bool) (m : Module)
       m.md.named.map Meta.namedString ++ m.md.defs.map (Meta.defString useHex)⟩ := by
     have e1 : m.typedefs.map typedefTok = m.typedefs.map (fun d => Core2.Line.typedef (Enc.typeName d.name) (Core2.bodyString d.body)) := rfl
     have e2 : m.globals.map (globalTok useHex) = m.globals.map (fun g => Core2.Line.global (Enc.globalName g.name) g.isConst
-        (tyString g.ty ++ [32] ++ Core2.constIdent useHex g.ty g.init) g.lead) := rfl
+        (tyString g.ty ++ [32] ++ Core2.constIdent useHex g.ty g.init) g.lead g.tail) := rfl
     simp only [foldTops, groups, Top.app, Top.empty, Core2.printTok, hmf, e1, e2, List.append_nil, List.nil_append]
   have hread : readTop ((printModule useHex m).length + 1) (printModule useHex m) = some (foldTops groups) := by
     have := hgood
